@@ -46,7 +46,7 @@ valid = (res.get("demo_without_patch_rc") == 0 and res.get("repo_tests_pass_with
 res["confirmed"] = bool(valid)
 print(json.dumps(res, indent=1))
 if valid:
-    out = f"/verif/seeded/{prop}-{n}"
+    out = f"/verif/seeded/{prop}-{int(n) + int(os.environ.get("SEED_OFFSET", "0"))}"
     os.makedirs(out, exist_ok=True)
     shutil.copy(patch, os.path.join(out, "patch.diff"))
     shutil.copy(demo, os.path.join(out, "demo.py"))
